@@ -46,8 +46,13 @@ package diags
 //@ func NewPositionRange [C06, C02]
 //@   requires val != nil && 1 <= val.Line && 1 <= val.Column && 1 <= minColumn
 //@   ensures len(offsets) >= 1
+//@   ensures forall k int :: 0 <= k && k < len(offsets) ==> offsets[k].Line >= val.Line && offsets[k].FirstColumn <= offsets[k].LastColumn
+//@   loop 1 invariant forall k int :: 0 <= k && k < len(offsets) ==> offsets[k].Line >= val.Line && offsets[k].Line <= lineIndex && offsets[k].FirstColumn <= offsets[k].LastColumn
+//@   loop 2 invariant forall k int :: 0 <= k && k < len(offsets) ==> offsets[k].Line >= val.Line && offsets[k].Line <= lineIndex && offsets[k].FirstColumn <= offsets[k].LastColumn
+//@   loop 1 invariant lineIndex >= val.Line
+//@   loop 2 invariant lineIndex >= val.Line
 //@   loop 1 invariant lineIndex >= 1 && columnIndex >= 1 && 0 <= needIndex && needIndex < len(val.Value) && need == val.Value[needIndex]
-//@   loop 1 invariant len(offsets) > 0 ==> lineIndex >= 2
+//@   loop 1 invariant len(offsets) > 0 ==> lineIndex >= 2 && lineIndex >= val.Line + 1
 //@   loop 2 invariant lineIndex >= 1 && lineIndex <= len(lines) && columnIndex >= 1 && 0 <= needIndex && needIndex < len(val.Value) && need == val.Value[needIndex]
 //@   loop 2 invariant len(offsets) > 0 ==> lineIndex >= 1
 //@   safe
